@@ -2,7 +2,7 @@
    the engine's rule-only offered sets, step results, statuses and (by C04) results. *)
 From Coq Require Import NArith ZArith List Bool Lia ZifyBool ZifyN.
 From Arimaa Require Import Types U64 GenMasks GenEnums GenZobrist Board Zobrist Engine Notation Display Trace Cells Rules Monitors
-  Fin XorFold Hash BitLemmas StepLemmas GenLemmas Refine Invariant TurnLemmas Live ResultLemmas Traps.
+  Fin XorFold Hash HashSens BitLemmas StepLemmas GenLemmas Refine Invariant TurnLemmas HashInv Live Setup Reach ResultLemmas Traps RepInv Material.
 Import ListNotations.
 Open Scope N_scope.
 Strategy opaque [bits_of].
@@ -218,6 +218,51 @@ Section Sym.
       rewrite Sd, Sst. apply spec_next_status_sym; [exact Im|exact Hi|now apply (st_ok_of s pp)].
   Qed.
 
+  (* C11: the capture preview of corresponding steps names corresponding pieces *)
+  Lemma after_step_cell s pp i d t j : PlayInv s pp -> In (Move i d) (valid_actions_no_rep s) -> dst_of i d = Some t -> j < 64 ->
+    cell (board (take_action s (Move i d))) j = after_captures (moved (cell (board s)) i t) j.
+  Proof.
+    intros Inv Off Hd Hj. pose proof (offered_move_pre s pp i d Inv Off) as [Hi (t' & o0 & k0 & Hd' & Hc & Ht)].
+    rewrite Hd in Hd'. injection Hd' as <-.
+    cbn [take_action]. rewrite (move_piece_unfold s pp i d (inv_phase s pp Inv)). cbv zeta. cbn [board].
+    now rewrite (take_move_cell (board s) i d t j (inv_board s pp Inv) Hi Hd Ht Hj).
+  Qed.
+
+  Definition tprev (x : option (square * piece * bool)) : option (square * piece * bool) :=
+    option_map (fun x => (ts (fst (fst x)), snd (fst x), tw (snd x))) x.
+
+  Theorem preview_sym s s' pp pp' i d : SymStates s s' pp pp' -> In (Move i d) (valid_actions_no_rep s) ->
+    legal_traps (cell (board s)) ->
+    trapped_animal_for_action s' (Move (ts i) (td d)) = tprev (trapped_animal_for_action s (Move i d)).
+  Proof.
+    intros Sy Off Leg. pose proof Sy as [Inv Inv' Im Sd Stp Sst].
+    pose proof (offered_move_pre s pp i d Inv Off) as [Hi (t & o0 & k0 & Hd & Hc & Ht)].
+    assert (In (Move (ts i) (td d)) (valid_actions_no_rep s')) as Off' by (now apply (offered_sym s s' pp pp' i d Sy Hi)).
+    assert (t < 64) as Ht64 by now apply (dst_lt64 i d t).
+    assert (dst_of (ts i) (td d) = Some (ts t)) as Hd' by (rewrite dst_sym by exact Hi; now rewrite Hd).
+    set (c := cell (board s)) in *. set (c' := cell (board s')) in *.
+    pose proof (moved_img c c' Im i t Hi Ht64) as Im1.
+    assert (forall j, j < 64 -> unsupported_on_trap (moved c' (ts i) (ts t)) (ts j) = unsupported_on_trap (moved c i t) j) as US
+      by (intros j Hj; now apply unsupported_sym).
+    destruct (trapped_animal_for_action s' (Move (ts i) (td d))) as [[[j' k'] o']|] eqn:P'.
+    - destruct (preview_some s' pp' (ts i) (td d) Inv' Off' (ts t) j' k' o' Hd' P') as (Hj' & U' & M' & _).
+      fold c' in U', M'.
+      set (j := ts j'). assert (j < 64) as Hj by now apply ts_lt. assert (ts j = j') as Ej by now apply ts_inv.
+      rewrite <- Ej in U', M'. rewrite (US j Hj) in U'. rewrite (Im1 j Hj) in M'.
+      destruct (moved c i t j) as [[o k]|] eqn:M; [|discriminate]. cbn in M'. injection M' as Eo Ek.
+      destruct (trapped_animal_for_action s (Move i d)) as [[[j2 k2] o2]|] eqn:P.
+      + destruct (preview_some s pp i d Inv Off t j2 k2 o2 Hd P) as (Hj2 & U2 & M2 & _). fold c in U2, M2.
+        assert (j = j2) as <- by (apply (one_capture c i d t j j2 Hi Hd Ht Leg Hj Hj2 U' U2)).
+        rewrite M in M2. injection M2 as <- <-. cbn. now rewrite Ej, Eo, Ek.
+      + exfalso. pose proof (proj1 (preview_none s pp i d Inv Off t Hd) P j Hj) as N. fold c in N.
+        rewrite (after_step_cell s pp i d t j Inv Off Hd Hj) in N. fold c in N. unfold after_captures in N. rewrite U', M in N. discriminate.
+    - destruct (trapped_animal_for_action s (Move i d)) as [[[j2 k2] o2]|] eqn:P; [exfalso|reflexivity].
+      destruct (preview_some s pp i d Inv Off t j2 k2 o2 Hd P) as (Hj2 & U2 & M2 & _). fold c in U2, M2.
+      pose proof (proj1 (preview_none s' pp' (ts i) (td d) Inv' Off' (ts t) Hd') P' (ts j2) (ts_lt j2 Hj2)) as N. fold c' in N.
+      rewrite (after_step_cell s' pp' (ts i) (td d) (ts t) (ts j2) Inv' Off' Hd' (ts_lt j2 Hj2)) in N. fold c' in N.
+      unfold after_captures in N. rewrite (US j2 Hj2), U2, (Im1 j2 Hj2), M2 in N. discriminate.
+  Qed.
+
   (* C11: results at turn start are mapped to the correspondingly swapped results *)
   Hypothesis goal_sym : forall j o, j < 64 ->
     (row_of (ts j) =? (if tw o then 0 else 7)) = (row_of j =? (if o then 0 else 7)).
@@ -260,6 +305,351 @@ Section Sym.
     intros [Inv Inv' Im Sd Stp Sst] S0 NE. split.
     - rewrite (result_order s' pp' Inv') by now rewrite Stp. rewrite NE, Sd. now rewrite (spec_result_sym _ _ _ _ Im).
     - now apply (result_order s pp Inv).
+  Qed.
+
+  (* ---- which actions the repetition rules withhold (C11, last clause) ---- *)
+  Definition tact (a : action) : action := match a with Move i d => Move (ts i) (td d) | x => x end.
+
+  Lemma tw_inj a b : tw a = tw b -> a = b.
+  Proof. intros E. apply eqb_prop. rewrite <- tw_eqb, E. destruct (tw b); reflexivity. Qed.
+
+  Lemma tcontent_inj x y : tcontent x = tcontent y -> x = y.
+  Proof.
+    destruct x as [[o k]|], y as [[o' k']|]; cbn; try discriminate; auto. intros E. injection E as E ->. now rewrite (tw_inj _ _ E).
+  Qed.
+
+  Lemma beq_img (c1 c2 c1' c2' : cellf) : img c1 c1' -> img c2 c2' ->
+    ((forall i, i < 64 -> c1 i = c2 i) <-> (forall i, i < 64 -> c1' i = c2' i)).
+  Proof.
+    intros I1 I2. split; intros H i Hi.
+    - rewrite <- (ts_inv i Hi). rewrite (I1 _ (ts_lt i Hi)), (I2 _ (ts_lt i Hi)). now rewrite H by now apply ts_lt.
+    - apply tcontent_inj. rewrite <- (I1 i Hi), <- (I2 i Hi). apply H. now apply ts_lt.
+  Qed.
+
+  Definition pimg (x x' : pos) : Prop := img (cell (fst x)) (cell (fst x')) /\ snd x' = tw (snd x).
+
+  Lemma peq_img x y x' y' : pimg x x' -> pimg y y' -> (peq x y <-> peq x' y').
+  Proof.
+    intros [I1 S1] [I2 S2]. unfold peq, beq. rewrite (beq_img _ _ _ _ I1 I2). rewrite S1, S2.
+    split; intros [A B]; split; auto; [now rewrite B|now apply tw_inj].
+  Qed.
+
+  Definition peqb (x y : pos) : bool :=
+    forallb (fun i => cell_eqb (cell (fst x) i) (cell (fst y) i)) sq64 && Bool.eqb (snd x) (snd y).
+
+  Lemma cell_eqb_refl (x : option (bool * piece)) : cell_eqb x x = true.
+  Proof. destruct x as [[[] []]|]; reflexivity. Qed.
+
+  Lemma peqb_true x y : peq x y -> peqb x y = true.
+  Proof.
+    intros [A B]. unfold peqb. apply andb_true_intro. split.
+    - apply forallb_forall. intros i Hi. apply In_sq64 in Hi. rewrite (A i Hi). apply cell_eqb_refl.
+    - rewrite B. destruct (snd y); reflexivity.
+  Qed.
+
+  Lemma peqb_peq x y : peqb x y = true -> peq x y.
+  Proof.
+    unfold peqb. intros H. apply andb_prop in H. destruct H as [A B]. split.
+    - intros i Hi. apply cell_eqb_eq. exact (forall_sq64 _ A i Hi).
+    - now apply eqb_prop.
+  Qed.
+
+  Lemma count_img (R : pos -> pos -> Prop) (f f' : pos -> bool) G G' : Forall2 R G G' ->
+    (forall x x', In x G -> In x' G' -> R x x' -> f' x' = true -> f x = true) ->
+    (length (filter f' G') <= length (filter f G))%nat.
+  Proof.
+    induction 1 as [|x x' G G' Hx HG IH]; intros Hf; [apply le_n|]. cbn [filter].
+    assert (length (filter f' G') <= length (filter f G))%nat as IH' by (apply IH; intros y y' Hy Hy'; apply Hf; now right).
+    destruct (f' x') eqn:F'.
+    - rewrite (Hf x x' (or_introl eq_refl) (or_introl eq_refl) Hx F'). cbn [length]. lia.
+    - destruct (f x); cbn [length]; lia.
+  Qed.
+
+  Record SymRep (s s' : state) (pp pp' : play) (G G' : list pos) (b0 b0' : pbs) : Prop := {
+    sr_states : SymStates s s' pp pp';
+    sr_rep : RepInv s pp G b0;
+    sr_rep' : RepInv s' pp' G' b0';
+    sr_G : Forall2 pimg G G';
+    sr_b0 : img (cell b0) (cell b0');
+    sr_trapped : trapped pp' = trapped pp;
+  }.
+
+  (* the engine-independent core: if the exact rule (positions, not hashes) allows the turn end on one side, the
+     hash test cannot withhold it on the other side unless a collision is involved there *)
+  Lemma no_violation_transfers s s' (G G' : list pos) b0 b0' nb nb' :
+    side s' = tw (side s) -> Forall2 pimg G G' -> img (cell b0) (cell b0') -> img (cell nb) (cell nb') ->
+    NoCollisionAt s' G' b0' nb' ->
+    (~ beq nb b0 /\ forall f, (forall x, In x G -> f x = true -> peq x (nb, negb (side s))) -> (length (filter f G) <= 1)%nat) ->
+    (z_from_piece_board nb' (side s') 0 = z_from_piece_board b0' (side s') 0 \/
+     (2 <= length (filter (fun x => (z_from_piece_board nb' (negb (side s')) 0 =? hpos x)%N) G'))%nat) -> False.
+  Proof.
+    intros Sd HG Ib0 Inb [NC1 NC2] [NB Cnt] [V|V].
+    - apply NB. unfold beq. apply (proj2 (beq_img _ _ _ _ Inb Ib0)). exact (NC1 V).
+    - assert (pimg (nb, negb (side s)) (nb', negb (side s'))) as PI by (split; [exact Inb|cbn [snd]; now rewrite Sd, tw_negb]).
+      pose proof (count_img pimg (fun x => peqb x (nb, negb (side s))) (fun x => (z_from_piece_board nb' (negb (side s')) 0 =? hpos x)%N) G G' HG) as C.
+      specialize (Cnt (fun x => peqb x (nb, negb (side s))) (fun x _ H => peqb_peq _ _ H)).
+      assert (length (filter (fun x => (z_from_piece_board nb' (negb (side s')) 0 =? hpos x)%N) G') <=
+              length (filter (fun x => peqb x (nb, negb (side s))) G))%nat as C'.
+      { apply C. intros x x' Hx Hx' Px F. apply N.eqb_eq in F. apply peqb_true.
+        apply (proj2 (peq_img x (nb, negb (side s)) x' (nb', negb (side s')) Px PI)). apply NC2; [exact Hx'|now symmetry]. }
+      lia.
+  Qed.
+
+  Lemma Forall2_flip' {A B} (R : A -> B -> Prop) l l' : Forall2 R l l' -> Forall2 (fun a b => R b a) l' l.
+  Proof. induction 1; constructor; auto. Qed.
+
+  Lemma no_violation_transfers_rev s s' (G G' : list pos) b0 b0' nb nb' :
+    side s' = tw (side s) -> Forall2 pimg G G' -> img (cell b0) (cell b0') -> img (cell nb) (cell nb') ->
+    NoCollisionAt s G b0 nb ->
+    (~ beq nb' b0' /\ forall f, (forall x, In x G' -> f x = true -> peq x (nb', negb (side s'))) -> (length (filter f G') <= 1)%nat) ->
+    (z_from_piece_board nb (side s) 0 = z_from_piece_board b0 (side s) 0 \/
+     (2 <= length (filter (fun x => (z_from_piece_board nb (negb (side s)) 0 =? hpos x)%N) G))%nat) -> False.
+  Proof.
+    intros Sd HG Ib0 Inb [NC1 NC2] [NB Cnt] [V|V].
+    - apply NB. unfold beq. apply (proj1 (beq_img _ _ _ _ Inb Ib0)). exact (NC1 V).
+    - assert (pimg (nb, negb (side s)) (nb', negb (side s'))) as PI by (split; [exact Inb|cbn [snd]; now rewrite Sd, tw_negb]).
+      pose proof (count_img (fun a b => pimg b a) (fun x => peqb x (nb', negb (side s'))) (fun x => (z_from_piece_board nb (negb (side s)) 0 =? hpos x)%N) G' G
+                    (Forall2_flip' _ _ _ HG)) as C.
+      specialize (Cnt (fun x => peqb x (nb', negb (side s'))) (fun x _ H => peqb_peq _ _ H)).
+      assert (length (filter (fun x => (z_from_piece_board nb (negb (side s)) 0 =? hpos x)%N) G) <=
+              length (filter (fun x => peqb x (nb', negb (side s'))) G'))%nat as C'.
+      { apply C. intros x' x Hx' Hx Px F. apply N.eqb_eq in F. apply peqb_true.
+        apply (proj1 (peq_img x (nb, negb (side s)) x' (nb', negb (side s')) Px PI)). apply NC2; [exact Hx|now symmetry]. }
+      lia.
+  Qed.
+
+  (* a pass is offered by the repetition-checked list on one side iff on the other *)
+  Theorem pass_rep_sym s s' pp pp' G G' b0 b0' : SymRep s s' pp pp' G G' b0 b0' ->
+    NoCollisionAt s G b0 (board s) -> NoCollisionAt s' G' b0' (board s') ->
+    (In Pass (valid_actions s) <-> In Pass (valid_actions s')).
+  Proof.
+    intros [Sy RI RI' HG Ib0 Tr] NC NC'. pose proof Sy as [Inv Inv' Im Sd Stp Sst]. split; intros Off.
+    - assert (In Pass (valid_actions_no_rep s)) as OffN by (rewrite (valid_is_filter s pp Inv) in Off; now apply filter_In in Off).
+      assert (In Pass (valid_actions_no_rep s')) as OffN' by now apply (pass_sym s s' pp pp' Sy).
+      destruct (can_pass s' true) eqn:CP; [now apply (can_pass_rep_iff s' pp' Inv')|exfalso].
+      assert (~ In Pass (valid_actions s')) as NotV by (intros X; apply (can_pass_rep_iff s' pp' Inv') in X; congruence).
+      pose proof (withheld_pass_exact_hash s' pp' G' b0' RI' OffN' NotV) as V.
+      exact (no_violation_transfers s s' G G' b0 b0' (board s) (board s') Sd HG Ib0 Im NC' (pass_changes_board s pp G b0 RI Off) V).
+    - assert (In Pass (valid_actions_no_rep s')) as OffN' by (rewrite (valid_is_filter s' pp' Inv') in Off; now apply filter_In in Off).
+      assert (In Pass (valid_actions_no_rep s)) as OffN by now apply (pass_sym s s' pp pp' Sy).
+      destruct (can_pass s true) eqn:CP; [now apply (can_pass_rep_iff s pp Inv)|exfalso].
+      assert (~ In Pass (valid_actions s)) as NotV by (intros X; apply (can_pass_rep_iff s pp Inv) in X; congruence).
+      pose proof (withheld_pass_exact_hash s pp G b0 RI OffN NotV) as V.
+      exact (no_violation_transfers_rev s s' G G' b0 b0' (board s) (board s') Sd HG Ib0 Im NC (pass_changes_board s' pp' G' b0' RI' Off) V).
+  Qed.
+
+  Lemma step_boards_img s s' pp pp' i d : SymStates s s' pp pp' -> In (Move i d) (valid_actions_no_rep s) ->
+    img (cell (board (take_action s (Move i d)))) (cell (board (take_action s' (Move (ts i) (td d))))).
+  Proof.
+    intros Sy Off. pose proof Sy as [Inv Inv' Im Sd Stp Sst].
+    pose proof (offered_move_pre s pp i d Inv Off) as [Hi (t & o0 & k0 & Hd & Hc & Ht)].
+    assert (In (Move (ts i) (td d)) (valid_actions_no_rep s')) as Off' by (now apply (offered_sym s s' pp pp' i d Sy Hi)).
+    assert (dst_of (ts i) (td d) = Some (ts t)) as Hd' by (rewrite dst_sym by exact Hi; now rewrite Hd).
+    intros j Hj. rewrite (after_step_cell s pp i d t j Inv Off Hd Hj).
+    rewrite (after_step_cell s' pp' (ts i) (td d) (ts t) (ts j) Inv' Off' Hd' (ts_lt j Hj)).
+    now apply (spec_step_img _ _ i d t Im Hi Hd).
+  Qed.
+
+  (* a step is offered by the repetition-checked list on one side iff the corresponding step is on the other *)
+  Theorem move_rep_sym s s' pp pp' G G' b0 b0' i d : SymRep s s' pp pp' G G' b0 b0' -> i < 64 ->
+    NoCollisionAt s G b0 (board (take_action s (Move i d))) ->
+    NoCollisionAt s' G' b0' (board (take_action s' (Move (ts i) (td d)))) ->
+    (In (Move i d) (valid_actions s) <-> In (Move (ts i) (td d)) (valid_actions s')).
+  Proof.
+    intros [Sy RI RI' HG Ib0 Tr] Hi NC NC'. pose proof Sy as [Inv Inv' Im Sd Stp Sst]. split; intros Off.
+    - assert (In (Move i d) (valid_actions_no_rep s)) as OffN by (rewrite (valid_is_filter s pp Inv) in Off; now apply filter_In in Off).
+      assert (In (Move (ts i) (td d)) (valid_actions_no_rep s')) as OffN' by now apply (offered_sym s s' pp pp' i d Sy Hi).
+      destruct (keep s' pp' (Move (ts i) (td d))) eqn:K; [rewrite (valid_is_filter s' pp' Inv'); apply filter_In; tauto|exfalso].
+      assert (~ In (Move (ts i) (td d)) (valid_actions s')) as NotV
+        by (intros X; rewrite (valid_is_filter s' pp' Inv') in X; apply filter_In in X; destruct X; congruence).
+      destruct (withheld_step_exact_hash s' pp' G' b0' (ts i) (td d) RI' OffN' NotV) as (S3 & T & V).
+      assert (3 <= step_of pp) as S3' by (rewrite <- Stp; lia). assert (trapped pp = false) as T' by now rewrite <- Tr.
+      exact (no_violation_transfers s s' G G' b0 b0' _ _ Sd HG Ib0 (step_boards_img s s' pp pp' i d Sy OffN) NC'
+               (fourth_step_changes_board s pp G b0 RI i d Off S3' T') V).
+    - assert (In (Move (ts i) (td d)) (valid_actions_no_rep s')) as OffN' by (rewrite (valid_is_filter s' pp' Inv') in Off; now apply filter_In in Off).
+      assert (In (Move i d) (valid_actions_no_rep s)) as OffN by now apply (offered_sym s s' pp pp' i d Sy Hi).
+      destruct (keep s pp (Move i d)) eqn:K; [rewrite (valid_is_filter s pp Inv); apply filter_In; tauto|exfalso].
+      assert (~ In (Move i d) (valid_actions s)) as NotV
+        by (intros X; rewrite (valid_is_filter s pp Inv) in X; apply filter_In in X; destruct X; congruence).
+      destruct (withheld_step_exact_hash s pp G b0 i d RI OffN NotV) as (S3 & T & V).
+      assert (3 <= step_of pp') as S3' by (rewrite Stp; lia). assert (trapped pp' = false) as T' by now rewrite Tr.
+      exact (no_violation_transfers_rev s s' G G' b0 b0' _ _ Sd HG Ib0 (step_boards_img s s' pp pp' i d Sy OffN) NC
+               (fourth_step_changes_board s' pp' G' b0' RI' (ts i) (td d) Off S3' T') V).
+  Qed.
+
+  (* ---- corresponding games stay corresponding (every step, including turn changes and the repetition ghost) ---- *)
+  Lemma capture_flag_sym s s' pp pp' i d : SymStates s s' pp pp' -> In (Move i d) (valid_actions_no_rep s) ->
+    snd (pb_take_move (board s') (ts i) (td d)) = snd (pb_take_move (board s) i d).
+  Proof.
+    intros Sy Off. pose proof Sy as [Inv Inv' Im Sd Stp Sst].
+    pose proof (offered_move_pre s pp i d Inv Off) as [Hi (t & o0 & k0 & Hd & Hc & Ht)].
+    assert (t < 64) as Ht64 by now apply (dst_lt64 i d t).
+    assert (dst_of (ts i) (td d) = Some (ts t)) as Hd' by (rewrite dst_sym by exact Hi; now rewrite Hd).
+    assert (cell (board s') (ts t) = None) as Ht' by (rewrite (Im t Ht64), Ht; reflexivity).
+    pose proof (inv_board s pp Inv) as W. pose proof (inv_board s' pp' Inv') as W'.
+    unfold pb_take_move. rewrite !remove_trapped_flag by (eapply move_piece_WFb; eauto).
+    rewrite <- (ts_onto (unsupported_on_trap (cell (pb_move_piece (board s') (ts i) (td d))))).
+    apply existsb_ext_in. intros j Hj. apply In_sq64 in Hj.
+    apply unsupported_sym; [|exact Hj]. intros z Hz.
+    rewrite (move_piece_cell (board s') (ts i) (td d) (ts t) (ts z) W' (ts_lt i Hi) Hd' Ht').
+    rewrite (move_piece_cell (board s) i d t z W Hi Hd Ht).
+    now apply moved_img.
+  Qed.
+
+  Lemma symstates_turn_end s s' pp pp' a : SymStates s s' pp pp' -> In a (valid_actions_no_rep s) ->
+    (a = Pass \/ exists i d, a = Move i d /\ 3 <= step_of pp) ->
+    img (cell (board (take_action s a))) (cell (board (take_action s' (tact a)))) ->
+    move_no s + 1 < P64 -> move_no s' + 1 < P64 ->
+    In (tact a) (valid_actions_no_rep s') ->
+    exists h l h' l', ph (take_action s a) = PlayPhase (play_initial h l) /\ ph (take_action s' (tact a)) = PlayPhase (play_initial h' l') /\
+      SymStates (take_action s a) (take_action s' (tact a)) (play_initial h l) (play_initial h' l').
+  Proof.
+    intros Sy Off Kind ImN Hm Hm' Off'. pose proof Sy as [Inv Inv' Im Sd Stp Sst].
+    destruct (action_preserves s pp a Inv Off) as [q Q]. destruct (action_preserves s' pp' (tact a) Inv' Off') as [q' Q'].
+    assert (side (take_action s a) = negb (side s) /\ exists h l, ph (take_action s a) = PlayPhase (play_initial h l)) as (S1 & h & l & P1).
+    { destruct Kind as [->|(i & d & -> & L)].
+      - destruct (pass_turn s pp (inv_phase s pp Inv) Hm) as (A & _ & _ & h & l & B & _). eauto.
+      - destruct (step_last s pp i d (inv_phase s pp Inv) L Hm) as (A & _ & h & l & B & _). eauto. }
+    assert (side (take_action s' (tact a)) = negb (side s') /\ exists h l, ph (take_action s' (tact a)) = PlayPhase (play_initial h l)) as (S1' & h' & l' & P1').
+    { destruct Kind as [->|(i & d & -> & L)]; cbn [tact].
+      - destruct (pass_turn s' pp' (inv_phase s' pp' Inv') Hm') as (A & _ & _ & h' & l' & B & _). eauto.
+      - assert (3 <= step_of pp') as L' by now rewrite Stp.
+        destruct (step_last s' pp' (ts i) (td d) (inv_phase s' pp' Inv') L' Hm') as (A & _ & h' & l' & B & _). eauto. }
+    exists h, l, h', l'. split; [exact P1|]. split; [exact P1'|].
+    pose proof (inv_phase _ q Q) as E. rewrite P1 in E. injection E as <-.
+    pose proof (inv_phase _ q' Q') as E'. rewrite P1' in E'. injection E' as <-.
+    constructor; auto.
+    now rewrite S1, S1', Sd, tw_negb.
+  Qed.
+
+  Definition tghost (s s' : state) (pp pp' : play) (G G' : list pos) (b0 b0' : pbs) (a : action) : Prop :=
+    Forall2 pimg (fst (ghost_next s pp G b0 a)) (fst (ghost_next s' pp' G' b0' (tact a))) /\
+    img (cell (snd (ghost_next s pp G b0 a))) (cell (snd (ghost_next s' pp' G' b0' (tact a)))).
+
+  Theorem symrep_step s s' pp pp' G G' b0 b0' a : SymRep s s' pp pp' G G' b0 b0' -> In a (valid_actions_no_rep s) ->
+    move_no s + 1 < P64 -> move_no s' + 1 < P64 ->
+    In (tact a) (valid_actions_no_rep s') /\
+    exists pp2 pp2', SymRep (take_action s a) (take_action s' (tact a)) pp2 pp2'
+      (fst (ghost_next s pp G b0 a)) (fst (ghost_next s' pp' G' b0' (tact a)))
+      (snd (ghost_next s pp G b0 a)) (snd (ghost_next s' pp' G' b0' (tact a))).
+  Proof.
+    intros [Sy RI RI' HG Ib0 Tr] Off Hm Hm'. pose proof Sy as [Inv Inv' Im Sd Stp Sst].
+    pose proof (inv_phase s pp Inv) as Hph. pose proof (inv_phase s' pp' Inv') as Hph'.
+    destruct a as [k|i d|].
+    - exfalso. destruct Inv as [H1 H2 _ _ H5]. now apply (T1_no_place s pp H1 H2 (status_inv_ok _ _ _ H5) k).
+    - pose proof (offered_move_pre s pp i d Inv Off) as [Hi _].
+      assert (In (Move (ts i) (td d)) (valid_actions_no_rep s')) as Off' by now apply (offered_sym s s' pp pp' i d Sy Hi).
+      split; [exact Off'|].
+      pose proof (step_boards_img s s' pp pp' i d Sy Off) as ImN.
+      pose proof (capture_flag_sym s s' pp pp' i d Sy Off) as Cap.
+      destruct (rep_preserved s pp G b0 (Move i d) RI Off) as [q R2]. destruct (rep_preserved s' pp' G' b0' (Move (ts i) (td d)) RI' Off') as [q' R2'].
+      pose proof (inv_phase _ q (hi_play _ q (ri_hash _ _ _ _ R2))) as Pq. pose proof (inv_phase _ q' (hi_play _ q' (ri_hash _ _ _ _ R2'))) as Pq'.
+      assert (board (take_action s (Move i d)) = fst (pb_take_move (board s) i d)) as Eb
+        by (cbn [take_action]; rewrite (move_piece_unfold s pp i d Hph); reflexivity).
+      assert (board (take_action s' (Move (ts i) (td d))) = fst (pb_take_move (board s') (ts i) (td d))) as Eb'
+        by (cbn [take_action]; rewrite (move_piece_unfold s' pp' (ts i) (td d) Hph'); reflexivity).
+      cbn [tact ghost_next] in *. cbv zeta in *. rewrite Stp, Cap in *.
+      destruct (N.leb_spec 3 (step_of pp)) as [L|L]; cbn [fst snd] in *.
+      + destruct (symstates_turn_end s s' pp pp' (Move i d) Sy Off (or_intror (ex_intro _ i (ex_intro _ d (conj eq_refl L)))) ImN Hm Hm' Off')
+          as (h & l & h' & l' & P1 & P1' & Sy2).
+        cbn [tact] in *. rewrite P1 in Pq. injection Pq as <-. rewrite P1' in Pq'. injection Pq' as <-.
+        exists (play_initial h l), (play_initial h' l'). constructor; auto.
+        * constructor; [split; cbn [fst snd]; [now rewrite <- Eb, <- Eb'|now rewrite Sd, tw_negb]|].
+          destruct (snd (pb_take_move (board s) i d)); [constructor|exact HG].
+        * now rewrite <- Eb, <- Eb'.
+      + assert (move_no s < P64) as Hm0 by lia. assert (move_no s' < P64) as Hm0' by lia.
+        destruct (step_sym s s' pp pp' i d Sy Off Hm0 Hm0' L) as (p2 & p2' & Sy2).
+        pose proof (inv_phase _ p2 (sy_inv _ _ _ _ Sy2)) as Pp. pose proof (inv_phase _ p2' (sy_inv' _ _ _ _ Sy2)) as Pp'.
+        rewrite Pq in Pp. injection Pp as <-. rewrite Pq' in Pp'. injection Pp' as <-.
+        exists q, q'. constructor; auto.
+        * destruct (snd (pb_take_move (board s) i d)); [constructor|exact HG].
+        * destruct (move_fields_mid s pp i d Hph L) as (_ & _ & x & X1 & _ & _ & X4). rewrite Pq in X1. injection X1 as <-.
+          assert (step_of pp' < 3) as L' by now rewrite Stp.
+          destruct (move_fields_mid s' pp' (ts i) (td d) Hph' L') as (_ & _ & x' & X1' & _ & _ & X4'). rewrite Pq' in X1'. injection X1' as <-.
+          now rewrite X4, X4', Tr, Cap.
+    - assert (In Pass (valid_actions_no_rep s')) as Off' by now apply (pass_sym s s' pp pp' Sy).
+      split; [exact Off'|].
+      destruct (rep_preserved s pp G b0 Pass RI Off) as [q R2]. destruct (rep_preserved s' pp' G' b0' Pass RI' Off') as [q' R2'].
+      pose proof (inv_phase _ q (hi_play _ q (ri_hash _ _ _ _ R2))) as Pq. pose proof (inv_phase _ q' (hi_play _ q' (ri_hash _ _ _ _ R2'))) as Pq'.
+      destruct (pass_fields s pp Hph) as (_ & B1 & _). destruct (pass_fields s' pp' Hph') as (_ & B1' & _).
+      assert (img (cell (board (take_action s Pass))) (cell (board (take_action s' Pass)))) as ImN by now rewrite B1, B1'.
+      destruct (symstates_turn_end s s' pp pp' Pass Sy Off (or_introl eq_refl) ImN Hm Hm' Off') as (h & l & h' & l' & P1 & P1' & Sy2).
+      cbn [tact ghost_next fst snd] in *. rewrite P1 in Pq. injection Pq as <-. rewrite P1' in Pq'. injection Pq' as <-.
+      exists (play_initial h l), (play_initial h' l'). constructor; auto.
+      constructor; [split; cbn [fst snd]; [exact Im|now rewrite Sd, tw_negb]|exact HG].
+  Qed.
+
+  Inductive SymGame : state -> state -> list pos -> list pos -> pbs -> pbs -> Prop :=
+  | SG_start s s' : StartPosition s -> StartPosition s' -> img (cell (board s)) (cell (board s')) -> side s' = tw (side s) ->
+      legal_traps (cell (board s)) ->
+      SymGame s s' [(board s, side s)] [(board s', side s')] (board s) (board s')
+  | SG_step s s' pp pp' G G' b0 b0' a : SymGame s s' G G' b0 b0' -> ph s = PlayPhase pp -> ph s' = PlayPhase pp' ->
+      In a (valid_actions_no_rep s) -> move_no s + 1 < P64 -> move_no s' + 1 < P64 ->
+      SymGame (take_action s a) (take_action s' (tact a))
+        (fst (ghost_next s pp G b0 a)) (fst (ghost_next s' pp' G' b0' (tact a)))
+        (snd (ghost_next s pp G b0 a)) (snd (ghost_next s' pp' G' b0' (tact a))).
+
+  Theorem symgame_rep s s' G G' b0 b0' : SymGame s s' G G' b0 b0' -> exists pp pp', SymRep s s' pp pp' G G' b0 b0'.
+  Proof.
+    induction 1 as [s s' Hs Hs' Im Sd _|s s' pp pp' G G' b0 b0' a R IH P P' Off Hm Hm'].
+    - destruct (rep_start s Hs) as [pp RI]. destruct (rep_start s' Hs') as [pp' RI'].
+      pose proof (hi_play s pp (ri_hash _ _ _ _ RI)) as Inv. pose proof (hi_play s' pp' (ri_hash _ _ _ _ RI')) as Inv'.
+      destruct Hs as (h & Ph & _). destruct Hs' as (h' & Ph' & _).
+      pose proof (inv_phase s pp Inv) as E. rewrite Ph in E. injection E as <-.
+      pose proof (inv_phase s' pp' Inv') as E'. rewrite Ph' in E'. injection E' as <-.
+      exists (play_initial h [h]), (play_initial h' [h']). constructor; auto.
+      + constructor; auto.
+      + constructor; [split; [exact Im|exact Sd]|constructor].
+    - destruct IH as (q & q' & SR). pose proof (sr_states _ _ _ _ _ _ _ _ SR) as Sy.
+      pose proof (inv_phase s q (sy_inv _ _ _ _ Sy)) as E. rewrite P in E. injection E as <-.
+      pose proof (inv_phase s' q' (sy_inv' _ _ _ _ Sy)) as E'. rewrite P' in E'. injection E' as <-.
+      exact (proj2 (symrep_step s s' pp pp' G G' b0 b0' a SR Off Hm Hm')).
+  Qed.
+
+  Lemma symgame_legal s s' G G' b0 b0' : SymGame s s' G G' b0 b0' -> legal_traps (cell (board s)).
+  Proof.
+    intros R. induction R as [s s' Hs Hs' Im Sd Leg|s s' pp pp' G G' b0 b0' a R IH P P' Off Hm Hm']; [exact Leg|].
+    destruct (symgame_rep _ _ _ _ _ _ R) as (q & q' & SR). pose proof (sr_states _ _ _ _ _ _ _ _ SR) as Sy.
+    pose proof (sy_inv _ _ _ _ Sy) as Inv.
+    destruct a as [k|i d|].
+    - exfalso. destruct Inv as [H1 H2 _ _ H5]. now apply (T1_no_place s q H1 H2 (status_inv_ok _ _ _ H5) k).
+    - now apply (step_settles s q i d).
+    - destruct (pass_fields s q (inv_phase s q Inv)) as (_ & B1 & _). now rewrite B1.
+  Qed.
+
+  (* C11 along whole games: the capture preview of corresponding steps names corresponding pieces *)
+  Theorem game_preview s s' G G' b0 b0' i d : SymGame s s' G G' b0 b0' -> In (Move i d) (valid_actions_no_rep s) ->
+    trapped_animal_for_action s' (Move (ts i) (td d)) = tprev (trapped_animal_for_action s (Move i d)).
+  Proof.
+    intros R Off. destruct (symgame_rep _ _ _ _ _ _ R) as (pp & pp' & SR).
+    exact (preview_sym s s' pp pp' i d (sr_states _ _ _ _ _ _ _ _ SR) Off (symgame_legal _ _ _ _ _ _ R)).
+  Qed.
+
+  (* C11 along whole games: rule-only offered actions correspond *)
+  Theorem game_offered s s' G G' b0 b0' a : SymGame s s' G G' b0 b0' ->
+    (In a (valid_actions_no_rep s) -> In (tact a) (valid_actions_no_rep s')) /\
+    (forall i d, i < 64 -> In (Move (ts i) (td d)) (valid_actions_no_rep s') -> In (Move i d) (valid_actions_no_rep s)) /\
+    (In Pass (valid_actions_no_rep s') -> In Pass (valid_actions_no_rep s)).
+  Proof.
+    intros R. destruct (symgame_rep _ _ _ _ _ _ R) as (pp & pp' & SR). pose proof (sr_states _ _ _ _ _ _ _ _ SR) as Sy. split; [|split].
+    - intros Off. destruct a as [k|i d|].
+      + exfalso. destruct (sy_inv _ _ _ _ Sy) as [H1 H2 _ _ H5]. now apply (T1_no_place s pp H1 H2 (status_inv_ok _ _ _ H5) k).
+      + pose proof (offered_move_pre s pp i d (sy_inv _ _ _ _ Sy) Off) as [Hi _]. now apply (offered_sym s s' pp pp' i d Sy Hi).
+      + now apply (pass_sym s s' pp pp' Sy).
+    - intros i d Hi Off. now apply (offered_sym s s' pp pp' i d Sy Hi).
+    - intros Off. now apply (pass_sym s s' pp pp' Sy).
+  Qed.
+
+  (* ... and so do the actions the repetition rules withhold, unless a 64-bit collision is involved on either side *)
+  Theorem game_withheld s s' G G' b0 b0' : SymGame s s' G G' b0 b0' ->
+    (NoCollisionAt s G b0 (board s) -> NoCollisionAt s' G' b0' (board s') -> (In Pass (valid_actions s) <-> In Pass (valid_actions s'))) /\
+    (forall i d, i < 64 -> NoCollisionAt s G b0 (board (take_action s (Move i d))) ->
+       NoCollisionAt s' G' b0' (board (take_action s' (Move (ts i) (td d)))) ->
+       (In (Move i d) (valid_actions s) <-> In (Move (ts i) (td d)) (valid_actions s'))).
+  Proof.
+    intros R. destruct (symgame_rep _ _ _ _ _ _ R) as (pp & pp' & SR). split.
+    - intros NC NC'. now apply (pass_rep_sym s s' pp pp' G G' b0 b0' SR).
+    - intros i d Hi NC NC'. now apply (move_rep_sym s s' pp pp' G G' b0 b0' i d SR Hi).
   Qed.
 End Sym.
 
@@ -332,7 +722,12 @@ Section Mirror.
   Definition mirror_offered := offered_sym ts td tw m_lt m_inv m_eqb m_dst m_or4 m_back.
   Definition mirror_pass := pass_sym ts tw.
   Definition mirror_step := step_sym ts td tw m_lt m_inv m_eqb m_dst m_or4 m_trap m_back.
+  Definition mirror_preview := preview_sym ts td tw m_lt m_inv m_eqb m_dst m_or4 m_trap m_back.
   Definition mirror_result := result_sym ts tw m_eqb m_goal (facts_onto ts td tw mirror_facts) (fun o => eq_refl).
+  Definition mirror_game_rep := symgame_rep ts td tw m_lt m_inv m_eqb m_dst m_or4 m_trap m_back m_goal (facts_onto ts td tw mirror_facts) (fun o => eq_refl).
+  Definition mirror_game_offered := game_offered ts td tw m_lt m_inv m_eqb m_dst m_or4 m_trap m_back m_goal (facts_onto ts td tw mirror_facts) (fun o => eq_refl).
+  Definition mirror_game_withheld := game_withheld ts td tw m_lt m_inv m_eqb m_dst m_or4 m_trap m_back m_goal (facts_onto ts td tw mirror_facts) (fun o => eq_refl).
+  Definition mirror_game_preview := game_preview ts td tw m_lt m_inv m_eqb m_dst m_or4 m_trap m_back m_goal (facts_onto ts td tw mirror_facts) (fun o => eq_refl).
 End Mirror.
 
 (* C11 for colour swap with rank flip *)
@@ -352,5 +747,11 @@ Section Flip.
   Definition flip_offered := offered_sym ts td tw f_lt f_inv f_eqb f_dst f_or4 f_back.
   Definition flip_pass := pass_sym ts tw.
   Definition flip_step := step_sym ts td tw f_lt f_inv f_eqb f_dst f_or4 f_trap f_back.
+  Definition flip_preview := preview_sym ts td tw f_lt f_inv f_eqb f_dst f_or4 f_trap f_back.
   Definition flip_result := result_sym ts tw f_eqb f_goal (facts_onto ts td tw flip_facts) (fun o => eq_refl).
+  Lemma f_negb o : tw (negb o) = negb (tw o). Proof. reflexivity. Qed.
+  Definition flip_game_rep := symgame_rep ts td tw f_lt f_inv f_eqb f_dst f_or4 f_trap f_back f_goal (facts_onto ts td tw flip_facts) f_negb.
+  Definition flip_game_offered := game_offered ts td tw f_lt f_inv f_eqb f_dst f_or4 f_trap f_back f_goal (facts_onto ts td tw flip_facts) f_negb.
+  Definition flip_game_withheld := game_withheld ts td tw f_lt f_inv f_eqb f_dst f_or4 f_trap f_back f_goal (facts_onto ts td tw flip_facts) f_negb.
+  Definition flip_game_preview := game_preview ts td tw f_lt f_inv f_eqb f_dst f_or4 f_trap f_back f_goal (facts_onto ts td tw flip_facts) f_negb.
 End Flip.
